@@ -425,11 +425,11 @@ def r9_5(ctx: Ctx) -> RuleResult:
 MEMO_DECORATORS = {"lru_cache", "cache", "cached_property", "memoize"}
 
 
-def r9_6(ctx: Ctx) -> RuleResult:
+def r9_6(ctx: Ctx, rule: str = "R9.6") -> RuleResult:
     """No memoisation on the evaluation / document-loading path: a cache that
     outlives a call makes results depend on history and hands the same mutable
     object to unrelated evaluations."""
-    rr = RuleResult("R9.6", "nothing reachable from evaluation is memoised across calls", floor=20)
+    rr = RuleResult(rule, "nothing reachable from evaluation is memoised across calls", floor=20)
     entries = [ctx.repo.require_func(n) for n in EVAL_ENTRIES]
     reach = ctx.callgraph.reachable(entries)
     for q in sorted(reach):
@@ -464,4 +464,63 @@ def r9_6(ctx: Ctx) -> RuleResult:
     return rr
 
 
-RULES = [r9_1, r9_2, r9_3, r9_4, r9_5, r9_6]
+def r9_7(ctx: Ctx) -> RuleResult:
+    """What may be cached is decided by `volatile`: a node is volatile when its value depends on the current node or
+    key, i.e. when it *is* such a node or any node below it is.  Every store to `self.volatile` in the expression
+    classes must therefore be: the transitive disjunction over the children (the base constructor), the constant True,
+    or the constant False in a class that has no children and whose evaluation does not read the current node / key.
+    A class that computes it differently (e.g. from its direct arguments only) caches what must be re-evaluated."""
+    rr = RuleResult("R9.7", "volatility is the disjunction over all nodes below", floor=5)
+    base = ctx.repo.require_class("jsonpath.filter.FilterExpression")
+    n = 0
+    for cls in ctx.repo.subclasses(base, strict=False):
+        for m_ in cls.methods.values():
+            for st in ast.walk(m_.node):
+                if not (isinstance(st, (ast.Assign, ast.AnnAssign))):
+                    continue
+                targets = st.targets if isinstance(st, ast.Assign) else [st.target]
+                if not any(path_of(t) == "self.volatile" for t in targets) or st.value is None:
+                    continue
+                n += 1
+                v = st.value
+                if isinstance(v, ast.Constant) and v.value is True:
+                    rr.ok(m_.loc(st), f"{cls.name}: volatile = True")
+                    continue
+                if isinstance(v, ast.Constant) and v.value is False and cls.name == "CachingFilterExpression":
+                    # the cache cell itself: it is only ever built around a node that is not volatile (R9.3)
+                    rr.ok(m_.loc(st), "CachingFilterExpression: the wrapper of a non-volatile node")
+                    continue
+                if isinstance(v, ast.Constant) and v.value is False:
+                    reads_current = any(
+                        isinstance(a, ast.Attribute) and a.attr in ("current", "current_key") and isinstance(a.value, ast.Name)
+                        for name in ("evaluate", "evaluate_async") for fn_ in [ctx.repo.find_method(cls, name)] if fn_ is not None
+                        for a in ast.walk(fn_.node))
+                    ch = ctx.repo.find_method(cls, "children")
+                    no_children = ch is None or all(
+                        isinstance(r.value, (ast.List, ast.Tuple)) and not r.value.elts for r in ast.walk(ch.node) if isinstance(r, ast.Return)) or (
+                        ch.cls is not None and ch.cls.name in ("Path",))
+                    overridden_true = any(
+                        isinstance(x, ast.Assign) and any(path_of(t) == "self.volatile" for t in x.targets) and isinstance(x.value, ast.Constant) and x.value.value is True
+                        for x in ast.walk(m_.node))
+                    if (not reads_current or overridden_true) and (no_children or ctx.repo.is_subclass(cls.qualname, "Path") or cls.name == "Path"):
+                        rr.ok(m_.loc(st), f"{cls.name}: volatile = False (no children, does not read the current node)")
+                    else:
+                        rr.bad(m_, st, f"{cls.name} declares itself not volatile although it "
+                               + ("reads the current node or key" if reads_current else "has children that may be volatile"),
+                               construct=f"{cls.name}: volatile = False")
+                    continue
+                # computed: must be the disjunction over self.children()
+                txt = ast.unparse(v)
+                over_children = "children()" in txt and ".volatile" in txt and isinstance(v, ast.Call) and callee_name(v) == "any"
+                if over_children:
+                    rr.ok(m_.loc(st), f"{cls.name}: volatile = any(child.volatile for child in self.children())")
+                else:
+                    rr.bad(m_, st, f"{cls.name} computes its volatility as `{short(v, 90)}`, not as the disjunction over all its children: a node whose "
+                           "dependency on the current node sits deeper (`length(value(@.tags))`) is treated as constant and its first value is "
+                           "replayed for every other node", construct=f"{cls.name}: volatile = {short(v, 60)}")
+    if n == 0:
+        raise AnalysisError("R9.7: no store to self.volatile found in the filter expression classes")
+    return rr
+
+
+RULES = [r9_1, r9_2, r9_3, r9_4, r9_5, r9_6, r9_7]
